@@ -74,7 +74,7 @@ def run(module, cfg, env=None, workers=1, args=(), timeout=3600, heap="4g", spec
         os.makedirs(spec_dir, exist_ok=True)
         with open(os.path.join(spec_dir, module + ".tla"), "w") as f:
             f.write(text)
-    cmd = ["java", "-Xmx" + heap, "-XX:+UseParallelGC", "-DTLA-Library=" + SPEC, "-cp", _classpath(), "tlc2.TLC",
+    cmd = ["java", "-Xmx" + heap, "-Xss64m", "-XX:+UseParallelGC", "-DTLA-Library=" + SPEC, "-cp", _classpath(), "tlc2.TLC",
            "-workers", str(workers),
            "-metadir", meta, "-noGenerateSpecTE", "-config", cfgpath] + list(args) + [module + ".tla"]
     e = dict(os.environ)
